@@ -214,6 +214,11 @@ func probes() []probe {
 		{"big-then-small", func(y func()) probeResult {
 			return txt(redact.Sprintf("%s", strings.Repeat("k", 100)) + redact.Sprintf("%s", "k"))
 		}},
+		{"forwarding", func(y func()) probeResult {
+			// directives re-created with MakeFormat: by a forwarding Formatter under redact, and by the wrappers under fmt
+			return probeResult{Text: QS(string(redact.Sprintf("%37s|%-9.3v|%+5d|%x", forwarder{"ab"}, forwarder{3.14159}, forwarder{42}, forwarder{"hx"})) +
+				fmt.Sprintf("|%37s|%-9.3v|%+5d|%06.2f", redact.Safe("ab"), redact.Unsafe(3.14159), redact.Safe(42), redact.Safe(2.5)))}
+		}},
 		{"literal-markers", func(y func()) probeResult { return txt(redact.Sprintf(startM+"%s"+endM+"\xe2", "d"+startM)) }},
 	}
 }
@@ -311,6 +316,12 @@ func abnormals() []abnormal {
 		}},
 		{"wide-integers", func(y func()) { _ = redact.Sprintf("%090d %.80b %+72.71d", 987654321, 5, 77) }},
 		{"zero-pads", func(y func()) { _ = redact.Sprintf("%012.4f %08s %06t %09q", 2.5, "z", false, "q") }},
+		{"forwarding-other-verbs", func(y func()) {
+			// the same flags, widths and precisions as the "forwarding" probe under verbs that share their low byte
+			// (U+0173/'s', U+0176/'v', U+0164/'d') or low 16 bits (U+10073/'s') with the verbs used there
+			_ = redact.Sprintf("%37\u0173|%-9.3\u0176|%+5\u0164|%37\U00010073|%\u0178", forwarder{"ab"}, forwarder{3.14159}, forwarder{42}, forwarder{"ab"}, forwarder{"hx"})
+			_ = fmt.Sprintf("%37\u0173|%-9.3\u0176|%+5\u0164|%06.2\u0166", redact.Safe("ab"), redact.Unsafe(3.14159), redact.Safe(42), redact.Safe(2.5))
+		}},
 		{"flags-everywhere", func(y func()) { _ = redact.Sprintf("%+#-0 33.11v %+#-0 33.11x", 3.5, "s") }},
 	}
 }
@@ -507,6 +518,9 @@ func runC12(c *Ctx) {
 	if ref == nil {
 		return
 	}
+	if c.Phase == "race" {
+		c12firstUse(c)
+	}
 	if c.Phase == "main" {
 		// single-threaded histories first (deterministic reuse of the one cached printer), then all workers
 		c12stress(c, ref, 1, 1, c.pick(8000, 300000), false)
@@ -540,6 +554,47 @@ func runC12(c *Ctx) {
 // with fmt in the same goroutine, run by many goroutines at once in the race
 // build. Interference between concurrent calls shows as a text difference (and
 // as a race report); the case list is the one of C04 with another salt.
+type safePrinterT = redact.SafePrinter
+type safeIntT = redact.SafeInt
+
+// c12firstUse: declared types with methods (SafeValue, Stringer, error, SafeFormatter) that nobody has printed yet in
+// this process, each printed for the first time by one of 16 goroutines released together, at top level and inside a
+// slice. Tables filled lazily per type or per method set are the target; the window is the very first use, so this
+// runs once per process, before anything else touches these types.
+func c12firstUse(c *Ctx) {
+	const G = 16
+	var gate atomic.Int32
+	var wg sync.WaitGroup
+	got := make([]string, len(firstUseValues))
+	gotIn := make([]string, len(firstUseValues))
+	for g := 0; g < G; g++ {
+		wg.Add(1)
+		go func(g int) {
+			defer wg.Done()
+			for gate.Load() == 0 {
+			}
+			for i := g; i < len(firstUseValues); i += G {
+				got[i] = string(redact.Sprint(firstUseValues[i].v))
+				gotIn[i] = string(redact.Sprintf("%v", []interface{}{firstUseValues[i].v}))
+			}
+		}(g)
+	}
+	gate.Store(1)
+	wg.Wait()
+	w0 := &Worker{C: c, ID: 0, counts: map[string]int64{}}
+	for i, fu := range firstUseValues {
+		want := strings.NewReplacer("\x01", startM, "\x02", endM).Replace(fu.want)
+		w0.Eval(2)
+		if canon(got[i]) != canon(want) || canon(gotIn[i]) != canon("["+want+"]") {
+			c.Violate("C12 first-use", "a value of a type printed for the first time while 15 other goroutines print other new types: "+q(got[i])+" / "+q(gotIn[i])+", want "+q(want)+" / "+q("["+want+"]"), map[string]string{"type": sprintType(fu.v)})
+		}
+	}
+	c.mu.Lock()
+	c.res.Evaluations += w0.evals
+	c.mu.Unlock()
+	c.AddCount("declared_types_first_printed_concurrently", int64(len(firstUseValues)))
+}
+
 func c12differential(c *Ctx) {
 	registerC04Types()
 	o := c04opts()
